@@ -10,6 +10,7 @@ struct RObj { uint8_t sub; uint8_t width; };
 struct RpdoModel { bool exists = false, valid = true; uint8_t type = 254; uint32_t id = 0; std::vector<RMap> map; uint32_t mapped = 0; int hasNew = 0; /* 0 no, 1 yes, 2 unknown */ uint8_t buf[8]; bool sync() const { return type <= 240; } };
 
 struct RpdoRun : NodeEnv {
+    bool txArmed = false, txHooked = false; size_t txFiredAt = 0;
     bool lowIdx = false; int nTpdo = 0;   // nTpdo > 0: synchronous / event TPDOs with the same channel numbers share the SYNC bookkeeping and the mapped objects with the RPDOs
     bool tpdoFrame(const Frame &f) const { if (!nTpdo || (f.id & 0x7F) != nodeId) return false; uint32_t fc = f.id & 0x780; return fc == 0x180 || fc == 0x280 || fc == 0x380 || fc == 0x480; }
     void dropTpdo(Fx &fx) { fx.tx.erase(std::remove_if(fx.tx.begin(), fx.tx.end(), [this](const Frame &f) { return tpdoFrame(f); }), fx.tx.end()); }
@@ -81,9 +82,15 @@ struct RpdoRun : NodeEnv {
             } else { expRecv = 0; if (m == M_STOP ? fx.appRx > 1 : fx.appRx != 1) fail("rpdo/unclaimed-not-passed-on", "frame " + hex(id) + " in mode " + std::to_string(m) + " handed to the application callback " + std::to_string(fx.appRx) + " times"); cov.hit(match ? "rpdo-outside-op" : "non-rpdo-frame"); }
             if (!fx.tx.empty()) fail("rpdo/tx", "transmission on RPDO reception: " + fx.tx[0].str());
         }
+        else if (k == "txscript") { if (!nTpdo) return; txArmed = true; if (!txHooked) { txHooked = true; w.onPdoTransmit = [this](const Frame &) { if (!txArmed) return; txArmed = false; txFiredAt = w.evs.size(); CONmtSetMode(&N()->Nmt, CO_PREOP); }; } return; }   // application code in COPdoTransmit: leaves OPERATIONAL (e.g. on a fault it just reported)
         else if (k == "sync") {
-            Fx fx = deliver(Frame(0x80, 0, {})); dropTpdo(fx);
-            if (m == M_OP) { for (auto &r : R) if (r.exists && r.valid && r.sync()) { if (r.hasNew == 1) { apply(r, r.buf); r.hasNew = 0; expSyncUpd++; cov.hit("sync-applied"); nontrivial = true; } else if (r.hasNew == 2) { std::map<uint8_t, uint32_t> keep = val; apply(r, r.buf); alts.push_back(val); val = keep; r.hasNew = 0; maybeSyncUpd++; } else cov.hit("sync-without-reception"); } }
+            txFiredAt = 0; Fx fx = deliver(Frame(0x80, 0, {})); dropTpdo(fx);
+            if (txFiredAt && m == M_OP) {   // a synchronous TPDO went out on this SYNC and its transmit callback took the node to PRE-OPERATIONAL: what was applied before that instant is in order, nothing may be written after it
+                cov.hit("left-operational-from-inside-the-transmit-callback-of-a-sync-tpdo"); nontrivial = true;
+                for (size_t i = mk; i < w.evs.size(); i++) { const Ev &e = w.evs[i]; if (e.kind != EV_SYNCUPDATE) continue; if (i >= txFiredAt) { fail("rpdo/written-outside-operational", "synchronous RPDO " + std::to_string(e.a) + " applied after the node had left OPERATIONAL (inside the same SYNC)"); return; }
+                    RpdoModel &r = R[(size_t)e.a % R.size()]; if (r.exists && r.valid && r.sync() && r.hasNew) { if (r.hasNew == 1) { apply(r, r.buf); expSyncUpd++; } else { maybeSyncUpd++; for (auto &me : r.map) if (!me.dummy) val[me.sub] = w.raw(0, ix(me.sub), me.sub); } r.hasNew = 0; } }
+                for (auto &r : R) if (r.hasNew == 1) r.hasNew = 2; m = M_PREOP;
+            } else if (m == M_OP) { for (auto &r : R) if (r.exists && r.valid && r.sync()) { if (r.hasNew == 1) { apply(r, r.buf); r.hasNew = 0; expSyncUpd++; cov.hit("sync-applied"); nontrivial = true; } else if (r.hasNew == 2) { std::map<uint8_t, uint32_t> keep = val; apply(r, r.buf); alts.push_back(val); val = keep; r.hasNew = 0; maybeSyncUpd++; } else cov.hit("sync-without-reception"); } }
             else { cov.hit("sync-outside-op"); if (m == M_PREOP) for (auto &r : R) if (r.hasNew) { r.hasNew = 0; cov.hit("buffered-frame-missed-its-sync"); } }   // the SYNC that follows the reception is recognised but may change nothing: the frame's chance has passed
             if (!fx.tx.empty()) fail("rpdo/tx", "transmission on SYNC: " + fx.tx[0].str());
         }
@@ -126,6 +133,7 @@ Plan gen_rpdo(Rng &r, bool thorough) {
         else if (c < 14) p.ops.push_back(Op("sync"));
         else if (c < 16) p.ops.push_back(Op("wr", {(int64_t)r.below((uint32_t)nobj), (int64_t)r.below(0x10000) * 65537}));
         else if (c < 18) p.ops.push_back(Op("nmt", {r.pick<int64_t>({1, 1, 2, 128, 128, 130})}));
+        else if (c == 18 && tp && r.chance(1, 3)) { p.ops.push_back(Op("txscript")); if (r.chance(1, 2)) { std::vector<uint8_t> b; for (int j = 0; j < 8; j++) b.push_back(r.byte()); p.ops.push_back(Op("rpdo", {(int64_t)r.below(4), 0, 8}, b)); } p.ops.push_back(Op("sync")); if (r.chance(1, 2)) p.ops.push_back(Op("nmt", {1})); }
         else if (c == 18 && tp) p.ops.push_back(Op("tpdowr", {(int64_t)r.below(4), (int64_t)r.below(3), (int64_t)r.below(2)}));
         else if (c == 18) p.ops.push_back(Op("rcvret", {(int64_t)r.below(2)}));
         else if (r.chance(1, 2)) { std::vector<uint8_t> b; for (int j = 0; j < 8; j++) b.push_back(r.byte()); p.ops.push_back(Op("lost", {(int64_t)r.below(4), (int64_t)r.below(2), (int64_t)r.chance(1, 3)}, b)); }
